@@ -34,7 +34,8 @@ META = {
     'rule': ("(i) cases = generated topologies (1-3 types, 1-3 instances, single/multi-atom residues) x resolution x skip list x file "
              "length 0..all (+ cuts inside a residue); (ii) runs = generated systems x {full -c, partial chain, -res rebuild, -mc "
              "centres, -ign at every position, scripted failed attempts}; non-trivial = at least one supplied and one generated "
-             "residue; distinct by (topology, split, options, seed)"),
+             "residue; distinct by (topology, split, options, seed)"
+             "; directed / added families (waves 10-12): residues given as centres whose type has a virtual site"),
 }
 
 PRELUDE = """From Coq Require Import String List Bool Arith.
